@@ -580,6 +580,22 @@ impl CompressorOxide {
     }
 }
 
+/// Verification hook (only with `--cfg miniz_oxide_verif`): a read-only projection of the
+/// match finder's state between calls.
+#[cfg(miniz_oxide_verif)]
+impl CompressorOxide {
+    /// (lookahead_pos, lookahead_size, dict.size, saved_match_len, dictionary ring + mirror)
+    pub fn verif_lz_state(&self) -> (usize, usize, usize, u32, &[u8]) {
+        (
+            self.dict.lookahead_pos,
+            self.dict.lookahead_size,
+            self.dict.size,
+            self.params.saved_match_len,
+            &self.dict.b.dict[..],
+        )
+    }
+}
+
 impl Default for CompressorOxide {
     /// Initialize the compressor with a level of 4, zlib wrapper and
     /// the default strategy.
